@@ -17,7 +17,7 @@ from vlib.util import Violation, Inconclusive, require, use_repo
 from vlib.sched import Sched, SchedAbort
 use_repo()
 from vlib import sim_c08
-from vlib.sim_c08 import TagFilter, InjectedError, installed, STATE
+from vlib.sim_c08 import TagFilter, InjectedError, installed, STATE, KINDS
 
 ID = "C08"
 LEVEL = "exploration"
@@ -34,8 +34,16 @@ ASSUMPTIONS = [
 ]
 
 def expected_of(case):
-    f = TagFilter(case["raising"], {int(k): v for k, v in case["fan"].items()})
+    f = TagFilter(case["raising"], {int(k): v for k, v in case["fan"].items()}, 0.0, {int(k): v for k, v in case.get("kinds", {}).items()})
     return f, Counter(f.expected(range(case["items"])))
+
+def is_injected(case, exc):
+    """exc is the error the filter raised for one of the raising items (type and message)"""
+    for it in case["raising"]:
+        kind = case.get("kinds", {}).get(str(it), "Injected")
+        if type(exc) is KINDS[kind] and (getattr(exc, "item", None) == it or f"item {it}" in str(exc)):
+            return True
+    return False
 
 def judge(case, outs, exc, handled=None, who="caller"):
     f, exp = expected_of(case)
@@ -44,7 +52,7 @@ def judge(case, outs, exc, handled=None, who="caller"):
     dup = {k: v for k, v in got.items() if v > exp.get(k, 0)}
     require(not dup, "outputs duplicated or invented", extra=dup, case=info)
     if exc is not None:
-        require(isinstance(exc, InjectedError) and exc.item in case["raising"],
+        require(is_injected(case, exc),
                 f"the call raised {type(exc).__name__}: {exc}, which is not one of the filter's errors", case=info)
     if case["abandon"] is None:
         if case["raising"]:
@@ -69,7 +77,7 @@ def judge(case, outs, exc, handled=None, who="caller"):
 def drive(case, outs, res):
     from coba.pipes.multiprocessing import Multiprocessor
     f, _ = expected_of(case)
-    f = RecordingTagFilter(f.raising, f.fan)
+    f = RecordingTagFilter(f.raising, f.fan, 0.0, f.kinds)
     gen = Multiprocessor(f, case["n"], case["m"]).filter(list(range(case["items"])))
     try:
         if case["abandon"] is None:
@@ -80,7 +88,7 @@ def drive(case, outs, res):
                 try: outs.append(next(it))
                 except StopIteration: break
             it.close()
-    except InjectedError as e:
+    except Exception as e:
         res["exc"] = e
     res["returned"] = True
 
@@ -124,7 +132,8 @@ def sim_cases(draw, tier):
     raising = sorted(draw(st.sets(st.integers(0, max(0, items - 1)), max_size=3))) if items and draw(st.integers(0, 2)) == 0 else []
     fan = {str(i): draw(st.integers(0, 3)) for i in sorted(draw(st.sets(st.integers(0, max(0, items - 1)), max_size=3)))} if items and draw(st.booleans()) else {}
     abandon = draw(st.integers(0, items + 1)) if draw(st.integers(0, 4)) == 0 else None
-    return {"n": n, "m": m, "items": items, "raising": raising, "fan": fan, "abandon": abandon,
+    kinds = {str(i): draw(st.sampled_from(sorted(KINDS))) for i in raising if draw(st.booleans())}
+    return {"n": n, "m": m, "items": items, "raising": raising, "fan": fan, "abandon": abandon, "kinds": kinds,
             "choices": draw(st.lists(st.integers(0, 5), max_size=250 if tier == "quick" else 500))}
 
 def nontrivial(case):
@@ -137,6 +146,7 @@ def key(case):
 def classes(case):
     out = [f"n={case['n']}", f"m={case['m']}"]
     if case["raising"]: out.append("raising")
+    for k in set(case.get("kinds", {}).values()): out.append("exc=" + k)
     if case["abandon"] is not None: out.append("abandon")
     if case["m"] > 0 and case["items"] > case["m"]: out.append("retirement")
     if case["items"] < case["n"]: out.append("fewer-items-than-procs")
@@ -151,6 +161,7 @@ def pb_enumerate(tier):
             for abandon in (None, 1):
                 if raising and abandon is not None: continue
                 configs.append({"n": n, "m": m, "items": items, "raising": raising, "fan": {}, "abandon": abandon})
+        configs.append({"n": n, "m": m, "items": items, "raising": [1], "fan": {}, "abandon": None, "kinds": {"1": "AssertionError"}})
     if tier == "thorough":
         for n, m, items in [(2, 1, 3), (3, 0, 3), (3, 1, 4), (2, 2, 5), (2, 0, 5)]:
             for raising in ([], [0], [items - 1], [0, 1]):
@@ -188,7 +199,7 @@ def run_real_once(case):
     from coba.multiprocessing import CobaMultiprocessor
     from coba.context import CobaContext, NullLogger
     f, _ = expected_of(case)
-    f = TagFilter(f.raising, f.fan, case.get("delay", 0.0))
+    f = TagFilter(f.raising, f.fan, case.get("delay", 0.0), f.kinds)
     outs, res = [], {}
     old_logger = CobaContext.logger
     CobaContext.logger = NullLogger()
@@ -206,7 +217,7 @@ def run_real_once(case):
                     try: outs.append(next(it))
                     except StopIteration: break
                 it.close()
-        except InjectedError as e:
+        except Exception as e:
             res["exc"] = e
         except BaseException as e:
             res["other"] = e
